@@ -276,10 +276,12 @@ Definition run_case_full (e : ecase) : list (N * kind) :=
        ++ (if of_sametype fl then [] else [(0%N, KType)])
        ++ (if of_meta fl then [] else [(0%N, KMeta)])
        ++ (let ok := canaries m in if forallb (fun c => memN c ok) (of_json fl) then [] else [(0%N, KCanary)])
+   | RSame, _ => [(0%N, KSame)]                      (* nil / zero payload or the pass-through configuration: the very event is due,
+                                                       whatever kind the payload is (also a rotation payload: nothing is rotated) *)
    | RErr, _ => [(root_shape (e_payload e), KErrMissing)]
    | _, ObErr => [(root_shape (e_payload e), KErrSpurious)]
    | RConsumed, _ | _, ObConsumed => [(0%N, KConsumed)]
-   | RSame, _ | _, ObSame => [(0%N, KSame)]
+   | _, ObSame => [(0%N, KSame)]
    end)
   ++ (if e_unchanged e then [] else [(0%N, KMutated)])
   ++ (match e_payload e, e_obs e with
